@@ -115,6 +115,8 @@ func generalPlan(tier string, faults bool) []PlanItem {
 	{
 		f := scnFailoverDel("failover-del2-K1", K1, "A", "B")
 		items = append(items, PlanItem{splitReplies(f, 2*f.H+53*ms-10*ms, 2*f.H+53*ms+120*ms), d})
+		ft := equalPrioTakeover(scnFailoverDel("failover-del2-takeover-equal-K1", K1, "A", "B"))
+		items = append(items, PlanItem{splitReplies(ft, 2*ft.H+53*ms-10*ms, 2*ft.H+53*ms+120*ms), d})
 		f3 := scnFailoverDel("failover-del3-K1", K1, "A", "B", "C")
 		items = append(items, PlanItem{splitReplies(f3, 2*f3.H+53*ms-10*ms, 2*f3.H+53*ms+120*ms), d})
 	}
@@ -166,6 +168,7 @@ func generalPlan(tier string, faults bool) []PlanItem {
 			PlanItem{scnHealthWindowTakeover("takeover-inside-health-check-K1", K1), d},
 			PlanItem{scnFollowerTakeover("follower-takeover-K1", K1), d},
 			PlanItem{scnPreemptThenRelease("preempt-then-release-K1", K1), d},
+			PlanItem{scnRestartAfterHungStop("restart-after-hung-stop-K1", K1), d},
 			PlanItem{scnReelectLinger("reelect-lingering-callbacks-K1", K1), d},
 			PlanItem{scnReelectSlowMetric("reelect-during-slow-demotion-metric-K1", K1), d},
 			PlanItem{scnTwoRoundsThenDelete("two-rounds-then-outside-delete-K1", K1), d},
@@ -372,9 +375,33 @@ func healthLate(s *Scenario) *Scenario {
 // notifications and is stopped; the explorer moves the stop call to every choice point,
 // in particular between the reads of the reconnect verification (C09: nothing is issued
 // after the stop call has returned).
+// takeover-round-then-stop: B (priority 2, takeover) follows an outside record of priority
+// 3; the record is deleted and rewritten with priority 1 at one instant, so that the
+// acquisition round started by the delete notification (a goroutine Stop does not wait for)
+// finds the key taken, reads it and takes it over; B is stopped 250 ms later, and the
+// explorer moves that stop between the issue and the answer of each operation of the round.
+func scnTakeoverRoundThenStop(name string, k kfn) *Scenario {
+	s := k(&Scenario{Name: name})
+	s.Insts = []InstSpec{{ID: "B", Priority: 2, Takeover: true}}
+	s.Script = []Item{
+		{At: 0, Actor: "outside", Do: "put", Payload: `{"id":"Z","token":"tz","priority":3}`, Fixed: true},
+		{At: 1 * ms, Actor: "startB", Do: "start", Inst: "B", Fixed: true},
+		{At: 450 * ms, Actor: "outside", Do: "delete", Fixed: true},
+		{At: 450 * ms, Actor: "outside", Do: "put", Payload: `{"id":"Y","token":"ty","priority":1}`, Fixed: true},
+		{At: 700 * ms, Actor: "lifeB", Do: "stop", Inst: "B"},
+	}
+	s.Horizon = 700*ms + 3*s.H
+	s = s.faultFree()
+	s.SplitApply = true
+	s.RandMenu = nil
+	s.DevFrom, s.DevUntil = 500*ms, 720*ms
+	return s
+}
+
 func connStopPlan(tier string) []PlanItem {
 	g2 := 2*200*ms + 7*ms + 13*us
 	var items []PlanItem
+	items = append(items, PlanItem{scnTakeoverRoundThenStop("takeover-round-then-stop-K1", K1), 1})
 	for _, seq := range [][]string{{"reconnect"}, {"disconnect", "reconnect"}} {
 		for _, st := range []string{"stop", "stopctx"} {
 			items = append(items, PlanItem{scnConn(seq, g2, "none", false, st), 1})
@@ -448,5 +475,28 @@ func splitReplies(s *Scenario, from, until time.Duration) *Scenario {
 	s.SplitApply = true
 	s.RandMenu = nil
 	s.DevFrom, s.DevUntil = from, until
+	return s
+}
+
+// restart-after-hung-stop: A leads, B and C follow. One request of B's watch loop may hang
+// for ever (the only deviation offered); B is stopped at 600 ms (Stop gives up waiting for
+// the hung goroutine after its 5 s) and started again at 5.7 s; A shuts down with DeleteKey
+// at 6 s and somebody else takes over: B has to follow the new leader.
+func scnRestartAfterHungStop(name string, k kfn) *Scenario {
+	s := k(&Scenario{Name: name})
+	s.Insts = insts("A", "B", "C")
+	s.Script = starts("A", "B", "C")
+	s.Script = append(s.Script,
+		Item{At: 600 * ms, Actor: "lifeB", Do: "stop", Inst: "B", Fixed: true},
+		Item{At: 5700 * ms, Actor: "lifeB", Do: "start", Inst: "B", Fixed: true},
+		Item{At: 6000*ms + 53*ms, Actor: "stopA", Do: "stopctx", Inst: "A", DeleteKey: true, Fixed: true})
+	s.Horizon = 6053*ms + 2500*ms
+	s.LatencyBound = 0
+	s.AllowHang = true
+	s.FaultLabels = []string{"pcheck", "watch"}
+	s.OnlyInst = []string{"B"}
+	s.NoTimeDev = true
+	s.DevUntil = 600 * ms
+	s.MaxSteps = 4000
 	return s
 }
